@@ -389,28 +389,7 @@ func init() {
 			xs := a[0].([]value)
 			for i := 1; i < len(xs); i++ {
 				for j := i; j > 0; j-- {
-					x, ok1 := xs[j].(string)
-					y, ok2 := xs[j-1].(string)
-					lt := false
-					if ok1 && ok2 {
-						lt = x < y
-					} else {
-						// The Str sort has equality only.  The lexical order of a symbolic string relative to another
-						// string is a free Boolean, fixed per pair of terms for the whole path ("for every name,
-						// wherever it sorts"); equal strings are never "less".
-						in := fr.in
-						tx, ty := in.toTerm(xs[j]), in.toTerm(xs[j-1])
-						if in.decide(in.ts.Eq(tx, ty)) {
-							lt = false
-						} else {
-							a, b, flip := tx, ty, false
-							if in.ts.Show(a) > in.ts.Show(b) {
-								a, b, flip = b, a, true
-							}
-							v := in.ts.Var("strlt|"+in.ts.Show(a)+"|"+in.ts.Show(b), sortBool)
-							lt = in.decide(v) != flip
-						}
-					}
+					lt := fr.in.strLess(xs[j], xs[j-1])
 					if !lt {
 						break
 					}
@@ -741,4 +720,154 @@ func (in *Interp) deepEq(x, y value, depth int) value {
 		}
 	}()
 	return x == y
+}
+
+// strLess decides x < y for strings of which at least one may be symbolic.  The Str sort has equality only: the
+// lexical order of a symbolic string relative to another string is a free Boolean, fixed per pair of terms for
+// the whole path ("for every name, wherever it sorts"); equal strings are never "less".  The decisions of one
+// path are kept transitively consistent (with each other and with the real order of concrete strings), so that a
+// path never describes an order no assignment of strings has... up to density: the solver's model is still not
+// asked to produce strings in that order - a counterexample is replayed natively before it is reported.
+func (in *Interp) strLess(xv, yv value) bool {
+	x, ok1 := xv.(string)
+	y, ok2 := yv.(string)
+	if ok1 && ok2 {
+		return x < y
+	}
+	tx, ty := in.toTerm(xv), in.toTerm(yv)
+	if in.decide(in.ts.Eq(tx, ty)) {
+		return false
+	}
+	kx, ky := in.strCanon(in.ts.Show(tx)), in.strCanon(in.ts.Show(ty))
+	if in.strOrd == nil {
+		in.strOrd = map[string][]string{}
+		in.strOrdConc = map[string]string{}
+	}
+	if ok1 {
+		in.strOrdConc[kx] = x
+	}
+	if ok2 {
+		in.strOrdConc[ky] = y
+	}
+	if cx, okx := in.strOrdConc[kx]; okx {
+		if cy, oky := in.strOrdConc[ky]; oky {
+			return cx < cy // both are known to equal concrete strings on this path
+		}
+	}
+	if in.strOrdReach(kx, ky) {
+		return true
+	}
+	if in.strOrdReach(ky, kx) {
+		return false
+	}
+	a, b, flip := tx, ty, false
+	if kx > ky {
+		a, b, flip = ty, tx, true
+	}
+	v := in.ts.Var("strlt|"+in.ts.Show(a)+"|"+in.ts.Show(b), sortBool)
+	lt := in.decide(v) != flip
+	// an equality learnt while deciding (the decision vector may carry it) can already contradict nothing here:
+	// x != y was decided above and neither order was implied.
+	if lt {
+		in.strOrd[kx] = append(in.strOrd[kx], ky)
+	} else {
+		in.strOrd[ky] = append(in.strOrd[ky], kx)
+	}
+	return lt
+}
+
+func (in *Interp) strCanon(k string) string {
+	for {
+		n, ok := in.strAlias[k]
+		if !ok {
+			return k
+		}
+		k = n
+	}
+}
+
+// strLearnEq is called when an equality between Str terms becomes true on the path: a symbolic string that has
+// order decisions behind it now has a concrete value (or is merged with another symbolic string), and every
+// earlier order decision must agree with the real order - otherwise no strings satisfy this path and it ends.
+func (in *Interp) strLearnEq(t *Term) {
+	if t.op != "=" || len(t.args) != 2 || t.args[0].sort.K != SStr {
+		return
+	}
+	if in.strOrd == nil {
+		in.strOrd = map[string][]string{}
+		in.strOrdConc = map[string]string{}
+	}
+	if in.strAlias == nil {
+		in.strAlias = map[string]string{}
+	}
+	ka, kb := in.strCanon(in.ts.Show(t.args[0])), in.strCanon(in.ts.Show(t.args[1]))
+	for _, x := range t.args {
+		if x.IsConst() {
+			if i := int(x.val.Int64()); i >= 0 && i < len(in.ts.strList) {
+				in.strOrdConc[in.ts.Show(x)] = in.ts.strList[i]
+			}
+		}
+	}
+	if ka == kb {
+		return
+	}
+	ca, oka := in.strOrdConc[ka]
+	cb, okb := in.strOrdConc[kb]
+	if oka && okb && ca != cb {
+		panic(pathAbort{kind: "dead", msg: "string equality contradicts known values"})
+	}
+	// merge the two nodes; a node with a concrete value survives under the key of that constant
+	if okb && !oka {
+		ka, kb = kb, ka
+	}
+	in.strAlias[kb] = ka
+	delete(in.strOrdConc, kb)
+	in.strOrd[ka] = append(in.strOrd[ka], in.strOrd[kb]...)
+	delete(in.strOrd, kb)
+	for k, es := range in.strOrd {
+		for i, e := range es {
+			if e == kb {
+				es[i] = ka
+			}
+		}
+		in.strOrd[k] = es
+	}
+	// consistency: no decided edge u < v may be contradicted (v <= u derivable)
+	for u, es := range in.strOrd {
+		for _, v := range es {
+			cu, o1 := in.strOrdConc[u]
+			cv, o2 := in.strOrdConc[v]
+			if u == v || (o1 && o2 && !(cu < cv)) || in.strOrdReach(v, u) {
+				panic(pathAbort{kind: "dead", msg: "the order decided for symbolic strings contradicts the values they turned out to have"})
+			}
+		}
+	}
+}
+
+// strOrdReach: is "from < to" implied by this path's earlier order decisions and the order of concrete strings?
+func (in *Interp) strOrdReach(from, to string) bool {
+	seen := map[string]bool{from: true}
+	work := []string{from}
+	for len(work) > 0 {
+		n := work[len(work)-1]
+		work = work[:len(work)-1]
+		next := append([]string{}, in.strOrd[n]...)
+		if c, ok := in.strOrdConc[n]; ok {
+			for k, d := range in.strOrdConc {
+				if c < d {
+					next = append(next, k)
+				}
+			}
+		}
+		for _, m := range next {
+			if m == to {
+				return true
+			}
+			if !seen[m] {
+				seen[m] = true
+				work = append(work, m)
+			}
+		}
+	}
+	return false
 }
